@@ -606,6 +606,17 @@ func classifyHang(pgid int, tracePath, evPath, outPath string, done chan error, 
 				case <-time.After(time.Second):
 				}
 			}
+			// threads of the subject itself that sit in the open of a FIFO without a partner
+			subjectOnFifo := false
+			if ths, err := filepath.Glob(fmt.Sprintf("/proc/%d/task/*/wchan", pgid)); err == nil {
+				for _, th := range ths {
+					w, _ := os.ReadFile(th)
+					if strings.Contains(string(w), "wait_for_partner") || strings.Contains(string(w), "fifo_open") {
+						subjectOnFifo = true
+						fmt.Fprintf(&sb, "subject thread %s wchan=%s\n", filepath.Base(filepath.Dir(th)), strings.TrimSpace(string(w)))
+					}
+				}
+			}
 			// SIGQUIT the subject and read the goroutine dump
 			syscall.Kill(pgid, syscall.SIGQUIT)
 			select {
@@ -615,7 +626,7 @@ func classifyHang(pgid int, tracePath, evPath, outPath string, done chan error, 
 				werr = <-done
 			}
 			dump, _ := os.ReadFile(outPath)
-			allBlocked, summary := goroutinesBlocked(string(dump))
+			allBlocked, summary := goroutinesBlocked(string(dump), subjectOnFifo)
 			info = sb.String() + summary
 			if allBlocked && childStuck {
 				why := "all-goroutines-blocked"
@@ -639,7 +650,7 @@ func classifyHang(pgid int, tracePath, evPath, outPath string, done chan error, 
 var goroutineHdr = regexp.MustCompile(`(?m)^goroutine (\d+)[^\[]*\[([^\]]+)\]:$`)
 
 // goroutinesBlocked parses a SIGQUIT dump.
-func goroutinesBlocked(dump string) (bool, string) {
+func goroutinesBlocked(dump string, subjectOnFifo bool) (bool, string) {
 	idx := goroutineHdr.FindAllStringSubmatchIndex(dump, -1)
 	if len(idx) == 0 {
 		return false, "no goroutine dump found\n"
@@ -676,6 +687,9 @@ func goroutinesBlocked(dump string) (bool, string) {
 		}
 		if state == "syscall" && (strings.Contains(body, "os.(*Process).wait") || strings.Contains(body, "os.(*Process).blockUntilWaitable") || strings.Contains(body, "os/exec.(*Cmd).Wait")) {
 			ok = true
+		}
+		if state == "syscall" && subjectOnFifo && (strings.Contains(body, "os.OpenFile") || strings.Contains(body, "os.Open(")) {
+			ok = true // the library itself opens a FIFO nobody holds the other end of (a thread of the subject sits in the kernel's FIFO open)
 		}
 		if state == "IO wait" && strings.Contains(body, "os/exec.(*Cmd)") {
 			ok = true // reading the combined output of a child that is itself blocked
